@@ -45,3 +45,14 @@ package util
 //@   ensures [head-is-max] sortFn == SortByRevision && len(list) > 0 ==> (forall j int :: 0 <= j && j < len(list) ==> old(list[j].Version) <= list[0].Version) && (exists j int :: 0 <= j && j < len(list) && list[0] == old(list[j]))
 //@   ensures [releases-untouched] forall r *rspb.Release :: r.Version == old(r.Version) && r.Name == old(r.Name) && r.Info == old(r.Info)
 //@   ensures [same-elements] permuted(list)
+
+// ---- C08: the kind tables have no duplicates (lessByKind's precondition), and the sorters use them
+
+//@ lemma install-order-has-no-duplicates: [C08] distinctKinds(InstallOrder)
+//@ lemma uninstall-order-has-no-duplicates: [C08] distinctKinds(UninstallOrder)
+
+//@ func FilterFunc.Filter
+//@   props C03
+//@   trusted
+//@   ensures [subset] forall j int :: 0 <= j && j < len(rets) ==> rets[j] != nil && (exists i int :: 0 <= i && i < len(rels) && rels[i] == rets[j])
+//@   ensures [fresh-list] len(rets) == 0 || fresh(rets)
